@@ -1,4 +1,4 @@
-CONSTANTS Design = "own" Depth = 5 MaxSheets = 2 Family = "min" Shape = "free" Wide = FALSE EmitReplay = FALSE
+CONSTANTS Design = "own" Depth = 5 MaxSheets = 3 Family = "min" Shape = "free" Wide = FALSE EmitReplay = FALSE
 SPECIFICATION MCSpec
 VIEW View
 INVARIANTS WellFormed RoundTrip Observers
